@@ -61,6 +61,13 @@ impl<T> DataWriterEntity<T> {
             .any(|x| x.registered && &x.instance_handle == instance_handle)
     }
 
+    /// Whether a write on the instance passes the max_instances limit: the instance is registered,
+    /// or there is room to (re-)register it. Callers that make room for the sample first
+    /// (KEEP_LAST eviction) must check this before, so that a refused write changes nothing.
+    pub fn has_room_for_instance(&self, instance_handle: &InstanceHandle) -> bool {
+        self.is_registered(instance_handle) || self.has_room_for_new_instance()
+    }
+
     fn has_room_for_new_instance(&self) -> bool {
         self.registered_instance_info
             .iter()
